@@ -874,6 +874,17 @@ impl Replayer {
         if !res_ok {
             return;
         }
+        // C12 / C06: for everything the member would write to storage the announced size is the encoded size
+        if matches!(a.as_str(), "DeliverApp" | "Write" | "Load" | "ApplyPending" | "DeliverCommit" | "JoinWelcome" | "Encrypt" | "Propose" | "Commit") {
+            if let Some(g) = self.w.parties[&p].group.as_ref() {
+                for (name, announced, written) in g.verif_encoded_lengths() {
+                    if announced != written {
+                        viol!(self, ["C12", "C06"], "encoded-len", "{p} after {a}: mls_encoded_len of {name} is {announced} but {written} bytes are written");
+                    }
+                }
+                self.w.bump("encoded_len_checks");
+            }
+        }
         if let Some(post) = st.get("post") {
             self.compare_projection(&p, post);
         }
